@@ -327,7 +327,17 @@ class Engine:
         self.counter[("ob", name)] = n + 1
         if n:
             name = f"{name}#{n}"
-        ob = Obligation(name, kind, state.hyps(), g, meta)
+        hyps = state.hyps()
+        hidden = []
+        for (u_, _n, _k), (_f, _rk, ax, reveal) in getattr(self, "opaque_fns", {}).items():
+            if u_ == self.unit:
+                if any(r in label for r in reveal):
+                    hyps = hyps + [ax]
+                else:
+                    hidden.append(ax)
+        if hidden:
+            meta["hidden_axioms"] = hidden
+        ob = Obligation(name, kind, hyps, g, meta)
         self.obligations.append(ob)
         if not z3.is_false(g):
             state.pc.append(g)  # assert, then assume (a literal False is never assumed)
@@ -515,6 +525,34 @@ class Engine:
             raise Unsupported(f"statement {type(node).__name__} at line {node.lineno}")
         self.cur_line = getattr(node, "lineno", 0)
         self.cur_state = state
+        cuts = getattr(self, "cuts", None)
+        if cuts:
+            chit = cuts.get(id(node))
+            if chit is not None:
+                # block contract inside a loop body: assert the clauses, forget the listed
+                # variables (fresh symbols), assume the clauses about the fresh values
+                from .loops import eval_clauses, norm_clauses, havoc_value
+
+                clabel, clauses, hv = chit
+                self.cuts_hit.add(clabel)
+                outs = m(node, state, fid)
+                for s2, oc in outs:
+                    if oc.kind != "normal":
+                        continue
+                    self.cur_state = s2
+                    for label, val in eval_clauses(self, s2, fid, norm_clauses(clauses)):
+                        self.oblige(s2, "lemma", f"cut.{clabel}.{label}", val)
+                    fr = s2.frames[fid]["vars"]
+                    for nm in hv:
+                        cur = fr[nm]
+                        tgt = self.deref(s2, cur)
+                        if isinstance(cur, Ref) and isinstance(tgt, ArrV):
+                            fr[nm] = self.alloc(s2, self.fresh_array(nm, tgt.shape, tgt.dtype))
+                        else:
+                            fr[nm] = havoc_value(self, s2, nm, cur)
+                    for label, val in eval_clauses(self, s2, fid, norm_clauses(clauses)):
+                        s2.assume(val)
+                return outs
         probes = getattr(self, "probes", None)
         if probes:
             try:
